@@ -1320,50 +1320,35 @@ func (r *Regex) Split(s string, n int) []string {
 		return nil
 	}
 
-	indices := r.FindAllStringIndex(s, -1)
-	if len(indices) == 0 {
-		// No matches, return entire string
-		return []string{s}
+	if len(r.pattern) > 0 && len(s) == 0 {
+		return []string{""}
 	}
 
-	// Determine the number of splits
-	numSplits := len(indices) + 1
-	if n > 0 && n < numSplits {
-		numSplits = n
-	}
+	// Same algorithm as regexp.Split: at most n matches are needed, a match
+	// ending at offset 0 produces no leading piece, and the remainder is
+	// appended unless the last match ends the string.
+	matches := r.FindAllStringIndex(s, n)
+	pieces := make([]string, 0, len(matches))
 
-	// Pre-allocate result slice
-	result := make([]string, 0, numSplits)
-
-	lastEnd := 0
-	for _, idx := range indices {
-		// Skip empty match at the beginning (position 0 with zero-width match)
-		// This matches stdlib behavior: Split("", "abc") = ["a", "b", "c"], not ["", "a", "b", "c", ""]
-		if lastEnd == 0 && idx[0] == 0 && idx[1] == 0 {
-			continue
-		}
-
-		// Skip empty match at the very end of string
-		if idx[0] == len(s) && idx[1] == len(s) {
+	beg := 0
+	end := 0
+	for _, match := range matches {
+		if n > 0 && len(pieces) == n-1 {
 			break
 		}
 
-		// Add substring before match
-		result = append(result, s[lastEnd:idx[0]])
-		lastEnd = idx[1]
-
-		// Check if we've reached the limit (but need room for final element)
-		if n > 0 && len(result) >= n-1 {
-			// Add the rest as the final element
-			result = append(result, s[lastEnd:])
-			return result
+		end = match[0]
+		if match[1] != 0 {
+			pieces = append(pieces, s[beg:end])
 		}
+		beg = match[1]
 	}
 
-	// Add remaining text after last match
-	// Always add even if empty (matches stdlib behavior)
-	result = append(result, s[lastEnd:])
-	return result
+	if end != len(s) {
+		pieces = append(pieces, s[beg:])
+	}
+
+	return pieces
 }
 
 // Count returns the number of non-overlapping matches of the pattern in b.
